@@ -144,9 +144,9 @@ def main(tier: str, seed: int) -> int:
             # that contains another one ("submodule"), patterns that refer
             # to them
             dict(kinds=['linear', 'conv', 'act'], frozen=['none'],
-                 max_leaves=3, max_depth=2, patterns=trees.WRAP_PATTERNS,
+                 max_leaves=2, max_depth=2, patterns=trees.WRAP_PATTERNS,
                  max_pat=1, share=False,
-                 segs=('module', 'submodule', '0', 'sub')),
+                 segs=('module', 'submodule', '0')),
         ]
     else:
         scopes = [
